@@ -27,6 +27,7 @@ Deref(h, v) == IF v.k # "ref" THEN v
                     CASE c.k = "list" -> [k |-> "list", xs |-> [i \in 1..Len(c.xs) |-> Deref(h, c.xs[i])]]
                       [] c.k = "dict" -> [k |-> "dict", items |-> [i \in 1..Len(c.items) |-> [key |-> c.items[i].key, v |-> Deref(h, c.items[i].v)]]]
                       [] c.k = "arr" -> [k |-> "arr", rows |-> [r \in 1..Len(c.rows) |-> [j \in 1..Len(c.rows[r]) |-> Deref(h, c.rows[r][j])]]]
+                      [] c.k = "rrt" -> [k |-> "rrt", regs |-> c.regs]          \* a measured-register transform: an object with a list of registers
                       [] c.k = "op" -> [k |-> "op", name |-> c.name, hasargs |-> c.hasargs, modes |-> c.modes,
                                         args |-> IF c.hasargs THEN Deref(h, Ref(c.args)) ELSE [k |-> "none"],
                                         kw |-> IF c.hasargs THEN Deref(h, Ref(c.kw)) ELSE [k |-> "none"]]
@@ -38,7 +39,7 @@ RECURSIVE Reach(_, _)
 Reach(h, c) == LET x == h[c]
                    kids == CASE x.k = "list" -> {x.xs[i].c : i \in {j \in 1..Len(x.xs) : x.xs[j].k = "ref"}}
                              [] x.k = "dict" -> {x.items[i].v.c : i \in {j \in 1..Len(x.items) : x.items[j].v.k = "ref"}}
-                             [] x.k = "arr" -> {}
+                             [] x.k \in {"arr", "rrt"} -> {}
                              [] x.k = "op" -> IF x.hasargs THEN {x.args, x.kw} ELSE {}
                IN {c} \cup UNION {Reach(h, d) : d \in kids}
 CellsOf(h, ob) == UNION {Reach(h, ob.ops[i]) : i \in 1..Len(ob.ops)} \cup Reach(h, ob.vars) \cup Reach(h, ob.opts)
@@ -52,6 +53,7 @@ CopyCell(c, env, shift) ==
   CASE c.k = "list" -> [c EXCEPT !.xs = [i \in 1..Len(c.xs) |-> SubstV(c.xs[i], env, shift)]]
     [] c.k = "dict" -> [c EXCEPT !.items = [i \in 1..Len(c.items) |-> [key |-> c.items[i].key, v |-> SubstV(c.items[i].v, env, shift)]]]
     [] c.k = "arr" -> [c EXCEPT !.rows = [r \in 1..Len(c.rows) |-> [j \in 1..Len(c.rows[r]) |-> SubstV(c.rows[r][j], env, shift)]]]
+    [] c.k = "rrt" -> c
     [] c.k = "op" -> IF c.hasargs THEN [c EXCEPT !.args = c.args + shift, !.kw = c.kw + shift] ELSE c
 Call(t, env, new) ==
   /\ t \in DOMAIN objs /\ objs[t].params # {} /\ new \notin DOMAIN objs
@@ -113,6 +115,9 @@ Mutate(o, kind, i) ==
        [] kind = "append_option_list" ->
             (i = 1 /\ \E j \in 1..Len(heap[ob.opts].items) : heap[ob.opts].items[j].v.k = "ref"
                /\ heap' = [heap EXCEPT ![heap[ob.opts].items[j].v.c].xs = Append(@, Num(3))] /\ UNCHANGED <<objs, next>>)
+       [] kind = "rrt_regref" ->      \* moving a feed-forward argument to other registers: written into the transform's register list
+            (i \in 1..2 /\ \E c \in CellsOf(heap, ob) : heap[c].k = "rrt"
+               /\ heap' = [heap EXCEPT ![c].regs = IF i = 1 THEN [@ EXCEPT ![1] = @ + 3] ELSE Append(@, 7)] /\ UNCHANGED <<objs, next>>)
        [] kind = "rename_op" ->
             (i = 1 /\ heap' = [heap EXCEPT ![ob.ops[1]].name = "Renamed"] /\ UNCHANGED <<objs, next>>)
 =============================================================================
